@@ -5,6 +5,8 @@ import (
 	"fmt"
 	"io"
 	"net"
+	"os"
+	"runtime"
 	"strings"
 	"sync"
 	"testing"
@@ -29,12 +31,18 @@ type frConn struct {
 	Closer   int // 0: proxy client closes when both directions are complete, 1: proxy server closes
 }
 
+type frFault struct {
+	Link int // index of the client<->server link in creation order (modulo the number created so far)
+	AtMs int // virtual time of the reset
+}
+
 type frScenario struct {
 	Client  vClientCfg
 	Conns   []frConn
 	LinkLat [][]int // per client<->server link (cyclic over links): latency pattern in ms
 	LinkSeg [][]int // per link: segment sizes (0 = whole record)
 	SidBase uint32
+	Faults  []frFault `json:",omitempty"` // connection resets injected at virtual times (C12 at layer 3)
 }
 
 type frConnResult struct {
@@ -47,13 +55,19 @@ type frConnResult struct {
 	closedSeen       bool
 	closedInTime     bool // closedSeen as of the end of the scenario time, before the rig is torn down
 	doneInTime       bool
+	cliExited        bool // the proxy-client side goroutine returned (completed, or saw an error / EOF)
+	srvStarted       bool
+	srvExited        bool
+	exitedInTime     bool
+	contentErr       error // a byte that is not the byte written at that offset (never acceptable)
 }
 
 type frResult struct {
-	conns    []*frConnResult
-	cliLinks []*vk.Link
-	sc       frScenario
-	sessions []*mux.Session
+	snapshotNote string
+	conns        []*frConnResult
+	cliLinks     []*vk.Link
+	sc           frScenario
+	sessions     []*mux.Session
 }
 
 func frTag(idx int, s2c bool) uint64 {
@@ -163,6 +177,14 @@ func frRunInBubble(sc frScenario) (*frResult, error) {
 				}
 				cs := sc.Conns[idx]
 				r := res.conns[idx]
+				mu.Lock()
+				r.srvStarted = true
+				mu.Unlock()
+				defer func() {
+					mu.Lock()
+					r.srvExited = true
+					mu.Unlock()
+				}()
 				r.c2sGot = 4
 				var wwg sync.WaitGroup
 				wwg.Add(1)
@@ -194,6 +216,7 @@ func frRunInBubble(sc frScenario) (*frResult, error) {
 						if buf[i] != vPRF(frTag(idx, false), uint64(r.c2sGot)+uint64(i)) {
 							mu.Lock()
 							r.c2sErr = fmt.Errorf("proxy server: byte at offset %d of connection %d is not what the proxy client wrote there", r.c2sGot+int64(i), idx)
+							r.contentErr = r.c2sErr
 							mu.Unlock()
 							return
 						}
@@ -211,15 +234,17 @@ func frRunInBubble(sc frScenario) (*frResult, error) {
 				r.srvDone = true
 				mu.Unlock()
 				if cs.Closer == 1 {
-					// wait until the client has everything, then close from this side
-					for i := 0; i < 100000; i++ {
+					// wait until the client has everything (or this socket is closed under us), then close from this side
+					n, err, closed := frWaitPeer(c, func() bool {
 						mu.Lock()
-						d := r.cliDone || stopped
+						defer mu.Unlock()
+						return r.cliDone || r.cliExited || stopped
+					})
+					if closed {
+						mu.Lock()
+						r.tailBytes += n
+						r.tailErrSrv = err
 						mu.Unlock()
-						if d {
-							break
-						}
-						time.Sleep(50 * time.Millisecond)
 					}
 					return // deferred Close
 				}
@@ -244,6 +269,11 @@ func frRunInBubble(sc frScenario) (*frResult, error) {
 			c := l.A
 			defer c.Close()
 			r := res.conns[idx]
+			defer func() {
+				mu.Lock()
+				r.cliExited = true
+				mu.Unlock()
+			}()
 			var wwg sync.WaitGroup
 			wwg.Add(1)
 			go func() {
@@ -277,6 +307,7 @@ func frRunInBubble(sc frScenario) (*frResult, error) {
 					if buf[i] != vPRF(frTag(idx, true), uint64(r.s2cGot)+uint64(i)) {
 						mu.Lock()
 						r.s2cErr = fmt.Errorf("proxy client: byte at offset %d of connection %d is not what the proxy server wrote there", r.s2cGot+int64(i), idx)
+						r.contentErr = r.s2cErr
 						mu.Unlock()
 						return
 					}
@@ -294,14 +325,16 @@ func frRunInBubble(sc frScenario) (*frResult, error) {
 			r.cliDone = true
 			mu.Unlock()
 			if cs.Closer == 0 {
-				for i := 0; i < 100000; i++ {
+				n, err, closed := frWaitPeer(c, func() bool {
 					mu.Lock()
-					d := r.srvDone || stopped
+					defer mu.Unlock()
+					return r.srvDone || r.srvExited || stopped
+				})
+				if closed {
+					mu.Lock()
+					r.tailBytes += n
+					r.tailErrCli = err
 					mu.Unlock()
-					if d {
-						break
-					}
-					time.Sleep(50 * time.Millisecond)
 				}
 				return
 			}
@@ -312,6 +345,21 @@ func frRunInBubble(sc frScenario) (*frResult, error) {
 			r.closedSeen = true
 			mu.Unlock()
 		}(idx, cs)
+	}
+	for _, f := range sc.Faults {
+		f := f
+		go func() {
+			time.Sleep(time.Duration(f.AtMs) * time.Millisecond)
+			mu.Lock()
+			var l *vk.Link
+			if n := len(res.cliLinks); n > 0 {
+				l = res.cliLinks[f.Link%n]
+			}
+			mu.Unlock()
+			if l != nil {
+				l.Reset()
+			}
+		}()
 	}
 	// ample virtual time: the slowest script plus transport latencies
 	budget := 30 * time.Minute
@@ -334,9 +382,29 @@ func frRunInBubble(sc frScenario) (*frResult, error) {
 	time.Sleep(budget)
 	// snapshot before the rig is torn down
 	mu.Lock()
+	for si, sh := range res.sessions {
+		res.snapshotNote += fmt.Sprintf("[sesh %d closed=%v] ", si, sh.IsClosed())
+	}
+	for _, l := range res.cliLinks {
+		res.snapshotNote += fmt.Sprintf("[link %d A=%d B=%d] ", l.ID, l.A.CloseCalls, l.B.CloseCalls)
+	}
+	if os.Getenv("VERIF_DEBUG") != "" {
+		hung := false
+		for _, r := range res.conns {
+			if !(r.cliExited && (!r.srvStarted || r.srvExited)) {
+				hung = true
+			}
+		}
+		if hung {
+			buf := make([]byte, 8<<20)
+			n := runtime.Stack(buf, true)
+			os.WriteFile(os.Getenv("VERIF_OUT")+"/hung-goroutines.txt", buf[:n], 0o644)
+		}
+	}
 	for _, r := range res.conns {
 		r.closedInTime = r.closedSeen
 		r.doneInTime = r.srvDone && r.cliDone
+		r.exitedInTime = r.cliExited && (!r.srvStarted || r.srvExited)
 	}
 	mu.Unlock()
 	// teardown
@@ -362,6 +430,33 @@ func frRunInBubble(sc frScenario) (*frResult, error) {
 	}
 	wg.Wait()
 	return res, nil
+}
+
+// frWaitPeer waits until cond() holds or the socket delivers something / is closed under the waiter (which is
+// how a proxy application notices that the tunnel behind its socket died).
+func frWaitPeer(c net.Conn, cond func() bool) (n int, err error, closed bool) {
+	type rr struct {
+		n   int
+		err error
+	}
+	ch := make(chan rr, 1)
+	go func() {
+		b := make([]byte, 64)
+		n, err := c.Read(b)
+		ch <- rr{n, err}
+	}()
+	for i := 0; i < 200000; i++ {
+		if cond() {
+			return 0, nil, false
+		}
+		select {
+		case r := <-ch:
+			return r.n, r.err, true
+		default:
+		}
+		time.Sleep(50 * time.Millisecond)
+	}
+	return 0, nil, false
 }
 
 func frGenConn(rt *rapid.T, maxBytes int) frConn {
@@ -516,4 +611,205 @@ func TestVerif_C03_FullRig(t *testing.T) {
 		}
 		return res, frCloseOracle(fr)
 	}))
+}
+
+// ---- C12 at layer 3: connection resets under the full rig ----
+
+func TestVerif_C12_FullRigFaults(t *testing.T) {
+	gen := func(rt *rapid.T) frScenario {
+		sc := frGen(8, true)(rt)
+		n := rapid.IntRange(1, 3).Draw(rt, "nfaults")
+		for i := 0; i < n; i++ {
+			sc.Faults = append(sc.Faults, frFault{Link: rapid.IntRange(0, 9).Draw(rt, "flink"), AtMs: rapid.SampledFrom([]int{0, 1, 3, 50, 400, 3000, 35000, 41000, 70000}).Draw(rt, "fat")})
+		}
+		return sc
+	}
+	vk.Run(t, "C12", "FullRigFaults", gen, frRun(t, func(fr *frResult) (vk.Result, error) {
+		res := vk.Result{}
+		cut := 0
+		for idx, r := range fr.conns {
+			if r.contentErr != nil {
+				return res, vk.ViolateSig("l3-fault-content", "connection %d: %v (under connection resets a reader may get a prefix, never different bytes)", idx, r.contentErr)
+			}
+			if !r.exitedInTime && os.Getenv("VERIF_DEBUG") != "" {
+				fmt.Printf("DEBUG conn %d: %+v s2cErr=%v c2sErr=%v\n", idx, *r, r.s2cErr, r.c2sErr)
+				for si, sh := range fr.sessions {
+					fmt.Printf("DEBUG   client session %d closed=%v terminal=%q\n", si, sh.IsClosed(), sh.TerminalMsg())
+				}
+				for _, l := range fr.cliLinks {
+					fmt.Printf("DEBUG   link %d c2s wire=%d consumed=%d s2c wire=%d consumed=%d Aclosed=%v Bclosed=%v\n", l.ID, len(l.Wire(vk.AtoB)), l.Consumed(vk.AtoB), len(l.Wire(vk.BtoA)), l.Consumed(vk.BtoA), l.A.CloseCalls, l.B.CloseCalls)
+				}
+				fmt.Printf("DEBUG   snapshot: %s\n", fr.snapshotNote)
+			}
+			if !r.exitedInTime {
+				return res, vk.ViolateSig("l3-fault-hang", "connection %d: a proxy socket was left without completion, error or end-of-stream after a tunnel connection was reset (client side returned: %v, server side started/returned: %v/%v)", idx, r.cliExited, r.srvStarted, r.srvExited)
+			}
+			if !(r.srvDone && r.cliDone) {
+				cut++
+			}
+		}
+		res.NonTrivial = cut > 0
+		if cut > 0 {
+			res.Labels = append(res.Labels, "proxy-connection-cut-by-fault")
+		} else {
+			res.Labels = append(res.Labels, "all-connections-completed-despite-faults")
+		}
+		return res, nil
+	}))
+}
+
+// ---- connection attempts failing while a session is being set up (open phase) ----
+
+type c12Connect struct {
+	Client vClientCfg
+	// Fail[i] says how the i-th dial attempt fails: "" healthy, "reset" (reset before anything is written),
+	// "reset-after-hello" (the ClientHello goes out, then the connection is reset), "eof" (server side closes
+	// the connection right after accepting it)
+	Fail []string
+}
+
+func TestVerif_C12_ConnectFault(t *testing.T) {
+	vk.Run(t, "C12", "ConnectFault", func(rt *rapid.T) c12Connect {
+		sc := c12Connect{Client: vClientCfg{
+			UID: vUIDb64(rapid.SliceOfN(rapid.Byte(), 16, 16).Draw(rt, "uid")), Method: "shadowsocks",
+			Enc: "plain", NumConn: rapid.IntRange(0, 4).Draw(rt, "numconn"), Browser: rapid.SampledFrom([]string{"chrome", "firefox", "safari"}).Draw(rt, "browser"),
+			Transport: rapid.SampledFrom([]string{"direct", "direct", "cdn"}).Draw(rt, "transport"), ServerName: "www.bing.com"}}
+		n := rapid.IntRange(1, 6).Draw(rt, "nfail")
+		for i := 0; i < n; i++ {
+			sc.Fail = append(sc.Fail, rapid.SampledFrom([]string{"", "reset", "reset", "reset-after-hello", "eof", "reply-fails", "reply-fails"}).Draw(rt, "fail"))
+		}
+		return sc
+	}, func(sc c12Connect) (vk.Result, error) {
+		var res vk.Result
+		var verr error
+		berr := vk.Bubble(t, func() {
+			res, verr = vk.Protect(func() (vk.Result, error) {
+				res := vk.Result{}
+				raw := sc.Client.raw([32]byte{})
+				srv := newVSrv(vSrvOpts{Bypass: [][]byte{raw.UID}, Methods: []string{"shadowsocks"}, AutoNet: true})
+				defer srv.stop()
+				srv.serve()
+				go func() {
+					for {
+						pc, err := srv.proxyLn.Accept()
+						if err != nil {
+							return
+						}
+						go io.Copy(pc, pc)
+					}
+				}()
+				go func() {
+					for {
+						rc, err := srv.redirLn.Accept()
+						if err != nil {
+							return
+						}
+						go io.Copy(io.Discard, rc)
+					}
+				}()
+				cnet := &vk.Net{Auto: true}
+				attempt := 0
+				var amu sync.Mutex
+				failed := 0
+				cnet.OnLink = func(l *vk.Link) {
+					amu.Lock()
+					i := attempt
+					attempt++
+					amu.Unlock()
+					if i >= len(sc.Fail) {
+						return
+					}
+					switch sc.Fail[i] {
+					case "reset":
+						l.Reset()
+						failed++
+					case "eof":
+						l.B.Close()
+						failed++
+					case "reply-fails":
+						l.BreakWrites(vk.BtoA)
+						failed++
+					case "reset-after-hello":
+						failed++
+						go func() {
+							for k := 0; k < 1000 && len(l.Wire(vk.AtoB)) == 0; k++ {
+								time.Sleep(time.Millisecond)
+							}
+							l.Reset()
+						}()
+					}
+				}
+				var dialer interface {
+					Dial(network, address string) (net.Conn, error)
+				} = &vk.Dialer{Net: cnet, Ln: srv.cliLn}
+				if strings.EqualFold(sc.Client.Transport, "cdn") {
+					cdn := &vCDN{front: vk.NewListener(), back: srv.dialer(), net: srv.net}
+					cdn.serve()
+					defer cdn.front.Close()
+					dialer = &vk.Dialer{Net: cnet, Ln: cdn.front}
+				}
+				cnet.Tap = true
+				_, remote, auth, err := vMustProcess(sc.Client, srv.pub, time.Now)
+				if err != nil {
+					return res, fmt.Errorf("harness: %v", err)
+				}
+				auth.SessionId = 31337
+				var sesh *mux.Session
+				done := make(chan struct{})
+				go func() {
+					defer close(done)
+					sesh = client.MakeSession(remote, auth, dialer)
+				}()
+				// failed attempts are retried after 3 s each
+				time.Sleep(time.Duration(3*len(sc.Fail)+10) * time.Second)
+				select {
+				case <-done:
+				default:
+					return res, vk.ViolateSig("connect-fault-stuck", "client.MakeSession did not complete although only the first %d connection attempts failed", len(sc.Fail))
+				}
+				defer sesh.Close()
+				// A failed attempt that had already joined the session on one side (reset after the hello went out), or
+				// whose failure made the server discard the session it had just created while parallel attempts of the
+				// same session were in flight, legitimately takes the session down (C12). What is never acceptable is a
+				// session that looks alive but does not carry data.
+				mayDie := false
+				for _, f := range sc.Fail {
+					if f == "reset-after-hello" || (f == "reply-fails" && remote.NumConn >= 2) {
+						mayDie = true
+					}
+				}
+				st, err := sesh.OpenStream()
+				if err != nil {
+					if mayDie && sesh.IsClosed() {
+						res.NonTrivial = true
+						res.Labels = append(res.Labels, "session-torn-down-by-setup-fault")
+						return res, nil
+					}
+					return res, vk.Violatef("OpenStream on the established session failed: %v", err)
+				}
+				msg := []byte("ping through the tunnel")
+				st.Write(msg)
+				buf := make([]byte, 100)
+				st.SetReadDeadline(time.Now().Add(5 * time.Second))
+				n, err := io.ReadFull(st, buf[:len(msg)])
+				if err != nil || string(buf[:n]) != string(msg) {
+					if mayDie && sesh.IsClosed() {
+						res.NonTrivial = true
+						res.Labels = append(res.Labels, "session-torn-down-by-setup-fault")
+						return res, nil
+					}
+					return res, vk.ViolateSig("connect-fault-broken-session", "the session established after failed connection attempts looks alive (closed=%v) but does not carry data: read %q, %v", sesh.IsClosed(), buf[:n], err)
+				}
+				res.NonTrivial = failed > 0
+				if failed > 0 {
+					res.Labels = append(res.Labels, "connection-attempts-failed-before-success")
+				}
+				return res, nil
+			})
+		})
+		if verr == nil && berr != nil {
+			verr = vk.Violatef("goroutines left blocked or crashed: %v", strings.SplitN(berr.Error(), "\n", 2)[0])
+		}
+		return res, verr
+	})
 }
